@@ -61,10 +61,24 @@ def to_si(value, sys3, dim3):
     return Fr(value) * scale(sys3, dim3)
 
 
+_LITRE = {"m": "kL", "dm": "L", "cm": "mL", "mm": "µL", "dmm": "nL", "cmm": "pL", "µm": "fL"}
+_MOLAR = {"kmol": "kM", "mol": "M", "dmol": "dM", "cmol": "cM", "mmol": "mM", "µmol": "µM", "nmol": "nM", "pmol": "pM", "fmol": "fM"}
+
+
 def unit_string(sys3, dim3, style=0):
     """A unit string for (sys3, dim3) in the library's grammar."""
     parts = []
-    for sym, e in zip(sys3, dim3):
+    derived = style >= 2          # styles 2 / 3: styles 0 / 1 with litre- and molar-family symbols where the units allow them
+    style = style % 2
+    sp, tm, qt = sys3
+    a, b, c = dim3
+    if derived and sp == "dm" and c != 0 and a == -3 * c and qt in _MOLAR:
+        parts.append((_MOLAR[qt], c))                      # (mol/dm3)^c written M^c
+        a, c = 0, 0
+    elif derived and a != 0 and a % 3 == 0 and sp in _LITRE:
+        parts.append((_LITRE[sp], a // 3))                 # (dm3)^k written L^k
+        a = 0
+    for sym, e in zip((sp, tm, qt), (a, b, c)):
         if e == 0:
             continue
         parts.append((sym, e))
